@@ -159,6 +159,24 @@ class Script:
         r = p.call({'op': 'end_cell', 'obj': b, 'new': c, 'via': rng.choice(['end_cell', 'to_cell'])})
         if 'err' in r['out']:
             return
+        if snake is None and rng.random() < 0.3:
+            # the builder goes on being used after a cell was taken from it: more items, a second cell (read back in full)
+            for _ in range(rng.randint(1, 3)):
+                it = self.item(free_bits, free_refs, cells)
+                if it is None:
+                    continue
+                call, rd, nb, nr = it
+                call['obj'] = b
+                r2 = p.call(call)
+                if 'err' in r2['out']:
+                    return
+                schema.append(rd)
+                free_bits -= nb
+                free_refs -= nr
+            c = p.next
+            r2 = p.call({'op': 'end_cell', 'obj': b, 'new': c, 'via': rng.choice(['end_cell', 'to_cell'])})
+            if 'err' in r2['out']:
+                return
         s = p.next
         p.call({'op': 'begin_parse', 'obj': c, 'new': s, 'via': rng.choice(['begin_parse', 'from_cell'])})
         for rd in schema:
